@@ -83,7 +83,11 @@ impl Directive for Const
 				ctx.push_error(args.convert(DirectiveErrorKind::Apply{dir: self.get_name().to_owned(), source}));
 				return Err(ErrorLevel::Fatal);
 			},
-			Err(e) => unreachable!("{e:?}"),
+			Err(e) =>
+			{
+				ctx.push_error(args.convert(DirectiveErrorKind::Apply{dir: self.get_name().to_owned(), source: Box::new(e)}));
+				return Err(ErrorLevel::Fatal);
+			},
 		}
 		Ok(())
 	}
